@@ -51,7 +51,7 @@ Definition check_tcp (v : tval) : bool :=
    the ownership model under the given schedule of main loop / ticker steps must have finished and the tunnel
    must have consumed exactly what the real tunnel consumed *)
 Definition run_own (v : tval) : st bsh (nat * bpc) :=
-  own_run false (map vb (vl (vnth 1 v))) (map vnat (vl (vnth 2 v))).
+  own_run false false (map vb (vl (vnth 1 v))) (map vnat (vl (vnth 2 v))).
 Definition main_done (s : st bsh (nat * bpc)) : bool :=
   match snd s with (_, BDone) :: _ => true | _ => false end.
 Definition check_own (v : tval) : bool :=
